@@ -2005,6 +2005,11 @@ class WriteMemoryByAddressResponse(
                 "The PDU is smaller as specified by the addressAndLengthFormatIdentifier"
             )
 
+        if len(pdu) > 2 + addr_len + size_len:
+            raise ValueError(
+                "The PDU is larger as specified by the addressAndLengthFormatIdentifier"
+            )
+
         memory_address = from_bytes(pdu[2 : 2 + addr_len])
         memory_size = from_bytes(pdu[2 + addr_len : 2 + addr_len + size_len])
 
